@@ -184,13 +184,23 @@ func c03Case(c *core.Ctx, id string) {
 	}
 
 	// crash points: counting run, then one killed run per hit.
-	for _, cpus := range []int{1, 4} {
+	type variant struct {
+		cpus    int
+		failing []string
+	}
+	variants := []variant{{1, nil}, {4, nil}}
+	if len(labels) > 0 {
+		// the same enumeration while one body fails: the failure path writes its own record
+		variants = append(variants, variant{1, []string{labels[r.IntN(len(labels))]}})
+	}
+	for vi, va := range variants {
+		cpus := va.cpus
 		restore()
-		countFile := filepath.Join(base, fmt.Sprintf("count-%d", cpus))
+		countFile := filepath.Join(base, fmt.Sprintf("count-%d", vi))
 		os.Remove(countFile)
 		e.ChildBuild = childBuilder(c, cpus)
-		_, res, alive := e.Build(target, pj.BuildOpt{Child: true, Always: always, Env: []string{"VERIF_COUNT=" + countFile}})
-		if !alive || res.LoadErr != "" || res.RunErr != "" {
+		_, res, alive := e.Build(target, pj.BuildOpt{Child: true, Always: always, Failing: va.failing, Env: []string{"VERIF_COUNT=" + countFile}})
+		if !alive || res.LoadErr != "" || (res.RunErr != "" && va.failing == nil) {
 			viol("counting-run-fails", map[string]any{"error": res.LoadErr + res.RunErr})
 			return
 		}
@@ -206,7 +216,7 @@ func c03Case(c *core.Ctx, id string) {
 			specs = append(specs, h)
 		}
 		sort.Strings(specs)
-		if cpus == 4 && len(specs) > 25 && c.Quick() {
+		if (cpus == 4 || va.failing != nil) && len(specs) > 25 && c.Quick() {
 			// limit 4 repeats the enumeration under real overlap; quick samples it
 			r.Shuffle(len(specs), func(a, b int) { specs[a], specs[b] = specs[b], specs[a] })
 			specs = specs[:25]
@@ -215,7 +225,7 @@ func c03Case(c *core.Ctx, id string) {
 		for _, spec := range specs {
 			restore()
 			e.ChildBuild = childBuilder(c, cpus)
-			st, _, alive := e.Build(target, pj.BuildOpt{Child: true, Always: always, NoCheck: true, Env: []string{"VERIF_CRASH=" + spec}})
+			st, _, alive := e.Build(target, pj.BuildOpt{Child: true, Always: always, NoCheck: true, Failing: va.failing, Env: []string{"VERIF_CRASH=" + spec}})
 			point := spec[:strings.Index(spec, "|")]
 			c.Count("killed_at:"+point, 1)
 			if alive {
@@ -237,7 +247,7 @@ func c03Case(c *core.Ctx, id string) {
 			c.Eval(key)
 			c.Count("kills", 1)
 			_ = st
-			if !recoverAndJudge(fmt.Sprintf("SIGKILL at %s (limit %d)", spec, cpus), cpus) {
+			if !recoverAndJudge(fmt.Sprintf("SIGKILL at %s (limit %d, failing bodies %v)", spec, cpus, va.failing), cpus) {
 				return
 			}
 		}
